@@ -396,11 +396,5 @@ def run(report, index, tier):
     report.not_decided += [
         'acceptance as a function of characters (lexing, ASI, regex vs '
         'division): see C04/C05/C06', 'early errors (out of the property)']
-    if tier == 'thorough':
-        try:
-            from . import c03_reference
-        except ImportError:
-            report.informational.append(
-                'R03.5 (Earley cross-membership) not built yet')
-        else:
-            c03_reference.run(report, index)
+    from . import c03_reference
+    c03_reference.run(report, index, pairs=True, deep=(tier == 'thorough'))
